@@ -2,8 +2,8 @@
 
 The randfunc is a vf.entropy.Tape: a scripted byte prefix followed by a seeded PRNG, so every key is reproducible
 from (arguments, tape seed, prefix).  Scripted RSA tapes steer the library's prime search (the first draw of
-Integer.random(exact_bits) IS the candidate) towards primes the oracle built with ref.primes: a q candidate at distance
-< 2^(bits/2-100) from p, q = p, and a (p, q, huge e) triple whose private exponent is below 2^(bits/2).
+Integer.random(exact_bits) IS the candidate) towards primes the oracle built with ref.primes: q candidates at distance
+< 2^(bits/2-100) from p (same leading bits; across a multiple of 2^(bits/2-100); just inside the margin), q = p, and a (p, q, huge e) triple whose private exponent is below 2^(bits/2).
 """
 import math
 import random
@@ -68,6 +68,14 @@ def _prime_below(start, cond):
     return c
 
 
+def _prime_above(start, cond):
+    from ref import primes
+    c = (start + 1) | 1
+    while not (primes._passes_small(c) and cond(c) and primes.is_prime_bpsw(c)):
+        c += 2
+    return c
+
+
 def scripted_rsa(ctx, H, entropy, RSA, bits, scenario):
     """bits even: p and q have the same size and every draw (candidate or Miller-Rabin base) takes nb bytes, so the
     script stays aligned on draw boundaries whatever the number of Miller-Rabin rounds is."""
@@ -85,6 +93,26 @@ def scripted_rsa(ctx, H, entropy, RSA, bits, scenario):
         P1 = _prime_top(r, half, 0xfff, 12, ok)
         target = _prime_below(P1 - 4, ok)
         assert 0 < P1 - target < (1 << (half - 100))
+        script = enc(P1) + enc(target) * 24
+    elif scenario == "close-q-straddle":
+        # p and the close candidate lie on different sides of a multiple X of 2^(half-100): they are a few thousand apart
+        # although their 100 leading bits differ (a "differs in the leading bits" test is not the FIPS 186-4 B.3.3 margin)
+        low = half - 100
+        X = ((0xfff << (half - 12)) | (r.getrandbits(88) << low)) if r.random() < 0.5 else (0xfff << (half - 12)) | (1 << (half - 13))
+        P1 = _prime_above(X, ok)
+        target = _prime_below(X - 1, ok)
+        assert target < X < P1 and (P1 >> low) != (target >> low) and P1 - target < (1 << low)
+        script = enc(P1) + enc(target) * 24
+    elif scenario == "close-q-margin":
+        # the candidate is the admissible prime closest below p + 2^(half-100) (or above p - 2^(half-100)): inside the
+        # forbidden zone by a few thousand, with a carry into the 100 leading bits
+        low = half - 100
+        P1 = _prime_top(r, half, 0xffe, 12, ok)
+        if r.random() < 0.5:
+            target = _prime_below(P1 + (1 << low) - 1, ok)
+        else:
+            target = _prime_above(P1 - (1 << low) + 1, ok)
+        assert 0 < abs(P1 - target) < (1 << low) and target.bit_length() == half
         script = enc(P1) + enc(target) * 24
     elif scenario == "q-equals-p":
         # P1 just above sqrt(2)*2^(half-1): nearly every random candidate c is larger, so a copy of P1 read as a Miller-Rabin
@@ -115,6 +143,8 @@ def scripted_rsa(ctx, H, entropy, RSA, bits, scenario):
                              "P1": P1, "steered_candidate": target})
     ctx.count("scripted_rsa_tapes")
     ctx.count("boundary_tapes")
+    if spy.orig is not None:
+        ctx.count("filter_spy_available")
     # observation only: was the steered number really offered as a q candidate, and what did the library's filter say?
     verdicts = [v for cand, v in spy.seen[1:] if cand == target]
     if verdicts:
@@ -129,7 +159,7 @@ def w_gen_rsa(spec, ctx, H, entropy):
     idx = spec["idx"]
     quick = ctx.tier == "quick"
     if idx == 0:
-        for scenario in ("close-q", "q-equals-p", "small-d"):
+        for scenario in ("close-q", "close-q-straddle", "close-q-margin", "q-equals-p", "small-d"):
             for bits in ((1024,) if quick else (1024, 1026, 2048)):
                 for attempt in range(4):
                     if scripted_rsa(ctx, H, entropy, RSA, bits, scenario) or getattr(RSA, "generate_probable_prime", None) is None:
